@@ -9,7 +9,9 @@
 (*    0 <= pmin <= pmax <= 1,                                              *)
 (*    P(S >= s + (M+1) g) <= pmin,   pmax <= P(S >= s - (M+2) g)           *)
 (* against the exact tail (Dist!ConvDist).  SeedFromRow0 = TRUE is the     *)
-(* originally coded look-up (negative control).                            *)
+(* originally coded look-up (negative control).  With Bgs <- WildBgs the   *)
+(* wildcard has a background frequency: the repaired bucket (suffix mass)  *)
+(* holds, Tfm!BucketAsCoded <- AsCodedTrue is the negative control.        *)
 (***************************************************************************)
 EXTENDS Tfm, TLC
 
@@ -19,6 +21,10 @@ VARIABLES m, bn, p, s8
 
 K == 3
 Bgs == {<<1, 1, 0>>, <<3, 1, 0>>}
+\* backgrounds that give the wildcard a frequency of its own (its scores are -inf: a word holding it has no score)
+WildBgs == {<<2, 1, 1>>, <<1, 1, 2>>}
+AsCodedTrue == TRUE
+WildWitness == {<< <<0, 6, NINF>>, <<0, 5, NINF>>, <<1, 3, NINF>> >>, << <<0, 6, NINF>>, <<0, 6, NINF>>, <<0, 6, NINF>> >>}
 RowsV == {<<x, y, NINF>> : x \in CellVals, y \in CellVals}
 Mats == UNION {[1..n -> RowsV] : n \in 2..MaxM}
 
@@ -36,7 +42,7 @@ Spec == Init /\ [][Next]_<<m, bn, p, s8>>
 
 RangeOK == (m # <<>> /\ s8 # 0) =>
   LET M == Len(m)
-      bd == bn[1] + bn[2]
+      bd == PlainSum(bn, K)
       D8 == ConvDist(Double(m), bn, K)
       r == LookupPv(m, p, bn, bd, K, GI, 4, s8, SeedFromRow0)
       lo == TailWhere(D8, LAMBDA w : (w - s8) * GI >= 8 * (M + 1))
